@@ -1838,6 +1838,117 @@ fn c01_gen_pull_from_empty_vec() {
     assert!(has_move_in(&v, i, d) == spec, "C01: offered pull completions == legal pull completions");
 }
 // ===========================================================================
+// Public-API twins.  The obligations above name private functions (PieceBoard::take_action, next_push_pull_state, ...)
+// because that is where the contracts live; a refactoring that changes a private signature prunes them (lost anchor).
+// These twins state the core of C02 / C13 through the public API only (GameState::new / take_action / piece_board /
+// trapped_animal_for_action), so that the properties stay decided across such refactorings.
+// ===========================================================================
+fn public_state(pb: &PieceBoardState, side: bool, step: usize, st: PushPullState) -> GameState {
+    let board = PieceBoard::new(pb.p1_pieces, pb.elephants, pb.camels, pb.horses, pb.dogs, pb.cats, pb.rabbits);
+    let prev = match step {
+        0 => Vec::new(),
+        _ => vec![PieceBoard::new(kani::any(), kani::any(), kani::any(), kani::any(), kani::any(), kani::any(), kani::any())],
+    };
+    let pp = PlayPhase::new(zob(kani::any()), List::new(), prev, st, kani::any());
+    GameState::new(side, 2, Phase::PlayPhase(pp), board, zob(kani::any()))
+}
+// @obl props=C02,C10,C13,C19 tier=quick kind=harness-contract mem=6 est=200 timeout=1800
+// @fns GameState::take_action GameState::piece_board GameState::trapped_animal_for_action GameState::new PieceBoard::new PlayPhase::new
+// @clause public API only. requires legal_board, an occupied square i, nbr(i,d) on the board and empty (every offered step is of this form). ensures the state after take_action(Move(i,d)) has, per square, exactly the content the rules prescribe (after_step_at: the piece moved one square keeping type and owner, every piece left on a trap without a friendly neighbour is gone, nothing else changed); all eight words consistent and trap-clean; trapped_animal_for_action returns None iff nothing was removed and otherwise the square/type/owner of the piece that disappears
+#[kani::proof]
+#[kani::unwind(6)]
+#[kani::stub(crate::zobrist::piece_board_value, pbv_ghost)]
+fn c02_public_step() {
+    let pb = any_legal_board();
+    let side: bool = kani::any();
+    let i = any_sq();
+    let d = any_direction();
+    kani::assume(at(&pb, i).is_some());
+    let dst = match nbr(i, d) {
+        Some(j) => j,
+        None => {
+            kani::assume(false);
+            0
+        }
+    };
+    kani::assume(at(&pb, dst).is_none());
+    let q = any_sq();
+    let gs = public_state(&pb, side, 0, PushPullState::None);
+    kani::cover!(captures_any(&pb, i, dst));
+    let preview = gs.trapped_animal_for_action(&mv(i, d));
+    let ns = gs.take_action(&mv(i, d));
+    let nb = ns.piece_board();
+    assert!(at(nb, q) == after_step_at(&pb, i, dst, q), "C02 (public API): square content after the step");
+    assert!(legal_board(nb), "C10 (public API): consistent, trap-clean board after every step");
+    match preview {
+        None => assert!(!captures_any(&pb, i, dst), "C13 (public API): no preview <=> nothing removed"),
+        Some((s, p, g)) => {
+            let si = s.index() as u8;
+            assert!(si < 64 && captured_at(&pb, i, dst, si) && after_move_at(&pb, i, dst, si) == Some((p, g)), "C13 (public API): the preview names the piece that is removed");
+        }
+    }
+}
+fn public_counters(step: usize) {
+    let pb = any_wf_board();
+    let side: bool = kani::any();
+    let st = any_status();
+    kani::assume(step > 0 || matches!(st, PushPullState::None));
+    let board = PieceBoard::new(pb.p1_pieces, pb.elephants, pb.camels, pb.horses, pb.dogs, pb.cats, pb.rabbits);
+    let mn: usize = kani::any();
+    kani::assume(mn < usize::MAX);
+    let pp = PlayPhase::new(zob(kani::any()), List::new(), prev_boards(step), st, kani::any());
+    let gs = GameState::new(side, mn, Phase::PlayPhase(pp), board, zob(kani::any()));
+    let ns = gs.take_action(&mv(any_sq(), any_direction()));
+    let last = step == 3;
+    assert!(ns.is_p1_turn_to_move() == (if last { !side } else { side }), "C03 (public API): side to move after a step");
+    assert!(ns.current_step() == (if last { 0 } else { step + 1 }), "C03 (public API): step counter after a step");
+    assert!(ns.move_number() == mn + (if last && !side { 1 } else { 0 }), "C03 (public API): move number grows exactly when Silver's turn ends");
+    if last {
+        let np = ns.unwrap_play_phase();
+        assert!(np.push_pull_state() == PushPullState::None && np.previous_piece_boards().len() == 0 && !np.piece_trapped_this_turn(), "C03 (public API): nothing pending and a fresh per-turn record at turn start");
+    }
+    if step >= 1 && !matches!(st, PushPullState::MustCompletePush(_, _)) {
+        let ps = gs.take_action(&Action::Pass);
+        let np = ps.unwrap_play_phase();
+        assert!(ps.is_p1_turn_to_move() == !side && ps.current_step() == 0 && ps.move_number() == mn + (if side { 0 } else { 1 }), "C03 (public API): side, step and move number after a pass");
+        assert!(np.push_pull_state() == PushPullState::None && np.previous_piece_boards().len() == 0 && !np.piece_trapped_this_turn(), "C03 (public API): fresh per-turn record after a pass");
+        assert!(same_board(ps.piece_board(), &pb), "C02 (public API): a pass leaves the board unchanged");
+    }
+}
+// @obl props=C03,C02,C19 tier=quick kind=harness-contract mem=6 est=120 timeout=1500
+// @fns GameState::take_action GameState::is_p1_turn_to_move GameState::current_step GameState::move_number PlayPhase::push_pull_state PlayPhase::previous_piece_boards
+// @clause public API only, steps 0..3 and pass at 1..3: same side and step+1 unless it was the fourth step; other side, step 0, nothing pending, fresh record after the fourth step or a pass; move number +1 exactly when Silver's turn ends; pass leaves the board unchanged
+#[kani::proof]
+#[kani::unwind(6)]
+#[kani::stub(crate::zobrist::piece_board_value, pbv_ghost)]
+fn c03_public_counters() {
+    kani::cover!(true);
+    public_counters(0);
+    public_counters(1);
+    public_counters(2);
+    public_counters(3);
+}
+// @obl props=C12,C19 tier=quick kind=harness-contract mem=6 est=150 timeout=1800
+// @fns GameState::take_action PlayPhase::push_pull_state
+// @clause public API only, step 1 (any status allowed by the invariant), every step the rules offer: the status reported by the new state is next_pp (push to complete naming the vacated square and the displaced type / possible pull naming the square left and the type / nothing)
+#[kani::proof]
+#[kani::unwind(6)]
+#[kani::stub(crate::zobrist::piece_board_value, pbv_ghost)]
+fn c12_public_status() {
+    let pb = any_wf_board();
+    let side: bool = kani::any();
+    let st = any_status();
+    let pp = pp_of(st);
+    kani::assume(wf_status(&pb, side, 1, pp));
+    let i = any_sq();
+    let d = any_direction();
+    kani::assume(offered_move(&pb, side, 1, pp, i, d));
+    let gs = public_state(&pb, side, 1, st);
+    kani::cover!(matches!(next_pp(&pb, side, pp, i, d), Pp::Push(_, _)));
+    let ns = gs.take_action(&mv(i, d));
+    assert!(pp_of(ns.unwrap_play_phase().push_pull_state()) == next_pp(&pb, side, pp, i, d), "C12 (public API): reported status describes the step just made");
+}
+// ===========================================================================
 // meta: the canary.  An `ensures` that is false on the real supported_pieces; it must FAIL.
 // If it ever passes, the pipeline is not checking anything and the whole run is UNDECIDED.
 // ===========================================================================
